@@ -32,7 +32,7 @@ LEVEL_TEXT = ('exploration: ~4*10^3 (quick) / ~10^5 (thorough) evaluations of th
 LEVEL_NOTE = ('trusted base: released mpmath 1.3.0 + the tree itself at 3p+300 bits as consensus (a defect shared by both at all '
               'precisions is invisible); inputs not generated are not covered')
 TECHNIQUE = 'runtime reference-model monitor: consensus oracle on every observed function value; sign-change/index oracle for zeros'
-SHARD_TIMEOUT = {'quick': 600, 'thorough': 3000}
+SHARD_TIMEOUT = {'quick': 1500, 'thorough': 4500}
 CASES = {'quick': 260, 'thorough': 6000}
 BUDGET = {'quick': 50, 'thorough': 420}
 NSHARDS = 16
